@@ -5,6 +5,7 @@ package etcdraft
 import (
 	"sync"
 
+	"github.com/coreos/etcd/raft"
 	"github.com/coreos/etcd/raft/raftpb"
 	"github.com/meshplus/bitxhub-kit/storage"
 	"github.com/meshplus/bitxhub-model/pb"
@@ -61,3 +62,42 @@ func (n *Node) VerifDrain() []*pb.CommitEvent {
 func (n *Node) VerifLastExec() uint64     { return n.lastExec }
 func (n *Node) VerifAppliedIndex() uint64 { return n.appliedIndex }
 func (n *Node) VerifPersistedAppliedIndex() uint64 { return n.loadAppliedIndex() }
+
+// ---- cluster harness (C20 part D) ----
+
+// VerifMkNode is called by the generated Verif_Start_Sync in place of
+// raft.StartNode / raft.RestartNode.
+var VerifMkNode func(c *raft.Config, peers []raft.Peer, restart bool) raft.Node
+
+// VerifSetRestart sets the package-level restart flag (what Node.Restart does).
+func VerifSetRestart(v bool) { restart.Store(v) }
+
+// VerifBufferChannels replaces the unbuffered hand-over channels by buffered ones so
+// that a handler run on the harness goroutine can post without a peer goroutine; the
+// harness then delivers each queued item as an event of its own.
+func (n *Node) VerifBufferChannels() {
+	n.proposeC = make(chan *raftproto.RequestBatch, 64)
+	n.msgC = make(chan []byte, 64)
+	n.stateC = make(chan *mempool.ChainState, 64)
+}
+
+func (n *Node) VerifTakeProposal() *raftproto.RequestBatch {
+	select {
+	case b := <-n.proposeC:
+		return b
+	default:
+		return nil
+	}
+}
+func (n *Node) VerifPendingProposals() int { return len(n.proposeC) }
+func (n *Node) VerifLeader() uint64        { return n.leader }
+func (n *Node) VerifRaft() raft.Node       { return n.node }
+func (n *Node) VerifCloseStorage() {
+	if n.raftStorage != nil {
+		_ = n.raftStorage.Close()
+	}
+	if n.storage != nil {
+		_ = n.storage.Close()
+	}
+}
+func (n *Node) VerifMempool() mempool.MemPool { return n.mempool }
